@@ -32,7 +32,7 @@ def cfg_dir():
 
 def include_flags():
     c = cfg_dir()
-    return ['-I' + c, '-I' + os.path.join(c, 'votca', 'tools'), '-I' + os.path.join(REPO, 'tools/include'), '-I' + os.path.join(REPO, 'csg/include'),
+    return ['-I' + c, '-I' + os.path.join(c, 'votca', 'tools'), '-I' + os.path.join(c, 'votca', 'xtp'), '-I' + os.path.join(REPO, 'tools/include'), '-I' + os.path.join(REPO, 'csg/include'),
             '-I' + os.path.join(REPO, 'xtp/include'), '-I' + os.path.join(REPO, 'csg/src/libcsg'), '-isystem', '/usr/include/eigen3',
             '-isystem', '/usr/include/hdf5/serial']
 
